@@ -99,7 +99,8 @@ func gsxStubLoadedGroups(e *ruleguard.Engine) []ruleguard.GoRuleGroup {
 
 func gsxDocText(name string) string {
 	s := gsxrt.StringN(name, 3)
-	gsxrt.Assume(gsxrt.Matches(`^[a-z]*$`, s))
+	// letters and the backslash (documentation snippets quote Go code such as '\n')
+	gsxrt.Assume(gsxrt.Matches(`^[a-z\\]*$`, s))
 	return s
 }
 
